@@ -176,11 +176,42 @@ def api_surface():
     return out
 
 
+def module_exports(modname, seen=None):
+    """names a backend module offers as attributes, statically: its top-level function definitions and explicitly imported
+    names, plus (recursively) everything a `from M import *` of another pysnark module brings in"""
+    seen = seen or set()
+    if modname in seen:
+        return []
+    seen.add(modname)
+    rel = modname.replace(".", "/") + ".py"
+    t = parse(rel)
+    pkg = modname.rsplit(".", 1)[0]
+    names = []
+    for n in t.body:
+        if isinstance(n, (ast.FunctionDef, ast.AsyncFunctionDef)):
+            names.append(n.name)
+        elif isinstance(n, ast.ImportFrom):
+            src = n.module if n.level == 0 else (pkg + "." + n.module if n.module else pkg)
+            if any(a.name == "*" for a in n.names):
+                if src and src.startswith("pysnark."):
+                    names += module_exports(src, seen)
+            else:
+                names += [a.asname or a.name for a in n.names]
+    out = []
+    for x in names:
+        if x not in out:
+            out.append(x)
+    return out
+
+
 def render_api(a):
     L = ["/-! GENERATED by harness/extract.py from /repo's working tree on every run. Do not edit. -/", "namespace Pysnark.Gen"]
     for key, rel, cls in API_SOURCES:
         what = f"methods of class `{cls}`" if cls else "functions and methods"
         L.append(f"/-- `{rel}`: {what}, in source order -/\ndef api_{key} : List String := " + lean_list(a.get(key, []), lean_str))
+    L.append("/-- for every module of `runtime.backends`: the names it offers (own functions, explicit imports, and the closure of "
+             "`from … import *`), extracted statically -/\ndef backendExports : List (String × List String) := "
+             + lean_list(a.get("__exports__", []), lambda kv: f"({lean_str(kv[0])}, {lean_list(kv[1], lean_str)})"))
     L.append("end Pysnark.Gen")
     return "\n".join(L) + "\n"
 
@@ -260,6 +291,13 @@ def run():
         a = api_surface()
     except ExtractError as e:
         errors.append(str(e)); a = {}
+    exports = []
+    for b in (c or {}).get("backends", []):
+        try:
+            exports.append((b[1], module_exports(b[1])))
+        except ExtractError as e:
+            errors.append(str(e)); exports.append((b[1], []))
+    a["__exports__"] = exports
     write_if_changed(os.path.join(gen, "Api.lean"), render_api(a))
     return c, d, errors
 
